@@ -46,6 +46,11 @@ impl FileTracker {
             .cloned()
     }
 
+    /// Stops tracking a file number whose file could not be created.
+    pub fn untrack(&mut self, file_number: &FileNumber) {
+        self.files.remove(file_number);
+    }
+
     /// Get the FileNumber directly after `curr`, creating it if it doesn't exist yet.
     pub fn inc(&mut self, curr: &FileNumber) -> FileNumber {
         use std::ops::Bound::{Excluded, Unbounded};
